@@ -146,3 +146,188 @@ class OnIdentificationEvent:
     def post_only_while_checking(self, event, old):
         st = old.self.instances[event['identifier']]
         return implies(not (st._state == CHECKING and event['now_monotonic'] > st.checking_time), no_effect())
+
+
+# ------------------------------------------------------------------------------------------ the handshake decision
+from contracts.assumed_transport import client_of, remote_instance_info, remote_strategies
+
+STRATEGY_KEYS = ('auto-fencing', 'starting', 'conciliation', 'supvisors_failure')   # RPCInterface.get_strategies
+INSTANCE_STATE_CODES = (0, 1, 2, 3, 4, 5)     # SupvisorsInstanceStates: STOPPED .. ISOLATED = range(6)
+AUTHORIZED = AuthorizationTypes.AUTHORIZED
+
+
+def same_strategies(answer, options):
+    """statement: 'whose auto_fence, starting, conciliation or supvisors_failure strategies differ from the local ones':
+    the remote get_strategies() answer equals the local one ON EVERY KEY"""
+    return (all(k in answer for k in STRATEGY_KEYS)
+            and answer['auto-fencing'] == options.auto_fence
+            and answer['starting'] == options.starting_strategy.name
+            and answer['conciliation'] == options.conciliation_strategy.name
+            and answer['supvisors_failure'] == options.supvisors_failure_strategy.name)
+
+
+def seen_isolated_or_unknown(code):
+    """statement: 'a peer that reports the local instance as ISOLATED' (or an unknown state code)"""
+    return code == ISOLATED.value or code not in INSTANCE_STATE_CODES
+
+
+def local_seen_by_remote(proxy):
+    """the state code the remote gives the LOCAL instance (first payload of its get_instance_info answer)"""
+    return remote_instance_info(proxy, proxy.supvisors.mapper.local_identifier)[0]['statecode']
+
+
+def proxy_pre(proxy):
+    """the cached XML-RPC client, if any, is the client of this peer (SupervisorProxy.proxy is its only writer)"""
+    return proxy._proxy is None or proxy._proxy is client_of(proxy)
+
+
+@contract('internal_com.supervisorproxy:SupervisorProxy._is_authorized', props=['C13'])
+class IsAuthorized:
+    """statement: 'During the handshake, a peer that reports the local instance as ISOLATED, or whose auto_fence, starting,
+    conciliation or supvisors_failure strategies differ from the local ones, is marked ISOLATED instead of being
+    admitted' - the decision taken from the two XML-RPC answers of the peer (assumed externals, contracts/
+    assumed_transport.py: pure functions of the client returning a symbolic payload, or a Fault / transport error).
+    The proxy runs in its own thread: the body is verified as SEQUENTIAL code."""
+    raises = ('SupervisorProxyException',)
+
+    def modifies(self):
+        return [field(self, '_proxy'), field(self, 'connected'), field(self, 'last_used')]
+
+    def pre_client(self):
+        return proxy_pre(self)
+
+    def post_client(self):
+        return proxy_pre(self)
+
+    def post_authorized_only_when(self, result):
+        """AUTHORIZED only when the remote does not see the local instance ISOLATED and every strategy is the same"""
+        return implies(result == AUTHORIZED,
+                       not seen_isolated_or_unknown(local_seen_by_remote(self))
+                       and same_strategies(remote_strategies(self), self.supvisors.options))
+
+    def post_not_authorized_iff_seen_isolated(self, result):
+        """once the remote has answered (no answer = UNKNOWN, the peer goes back to STOPPED and is checked again)"""
+        return implies(result != AuthorizationTypes.UNKNOWN,
+                       (result == AuthorizationTypes.NOT_AUTHORIZED)
+                       == seen_isolated_or_unknown(local_seen_by_remote(self)))
+
+    def post_effect_none(self):
+        return no_effect()
+
+    def exc_SupervisorProxyException_effect_none(self, exc):
+        return no_effect()
+
+
+# ------------------------------------------------------------------------------------------ the handshake itself
+def origin_known(proxy):
+    """the proxy of a peer is created by SupervisorProxyServer.get_proxy from a status of the context"""
+    return proxy.status.supvisors_id.identifier in proxy.supvisors.mapper._instances
+
+
+TRANSFER_FRAME = ('_proxy', 'connected', 'last_used')
+
+
+@contract('internal_com.supervisorproxy:SupervisorProxy._transfer_network_info', props=['C13'])
+class TransferNetworkInfo:
+    """IDENTIFICATION notification: the network information of the peer, stamped with the HANDSHAKE timestamp it is
+    given (Context.on_identification_event discards it unless later than the entry in CHECKING); None / empty when the
+    remote did not answer.  Sequential code."""
+    raises = ('SupervisorProxyException',)
+    effect = 'transfer_network_info'
+
+    def modifies(self):
+        return [field(self, f) for f in TRANSFER_FRAME]
+
+    def pre_client(self):
+        return proxy_pre(self) and origin_known(self)
+
+    def post_client(self):
+        return proxy_pre(self)
+
+    def post_effect_one_identification(self, timestamp):
+        note = effect_at('push_notification', 0)[0] if count_effects('push_notification') == 1 else None
+        return (note[1][0] == NotificationHeaders.IDENTIFICATION.value
+                and (('now_monotonic' in note[1][1] and note[1][1]['now_monotonic'] == timestamp)
+                     if note[1][1] else True)
+                if count_effects('push_notification') == 1 else False)
+
+
+@contract('internal_com.supervisorproxy:SupervisorProxy._transfer_states_modes', props=[])
+class TransferStatesModes:
+    """STATE notification with the state & modes of the peer (when it answers exactly one payload).  Sequential code."""
+    raises = ('SupervisorProxyException',)
+    effect = 'transfer_states_modes'
+
+    def modifies(self):
+        return [field(self, f) for f in TRANSFER_FRAME]
+
+    def pre_client(self):
+        return proxy_pre(self) and origin_known(self)
+
+    def post_client(self):
+        return proxy_pre(self)
+
+
+@contract('internal_com.supervisorproxy:SupervisorProxy._transfer_process_info', props=[])
+class TransferProcessInfo:
+    """ALL_INFO notification with the process table of the peer (the handshake snapshot of C12).  Sequential code."""
+    raises = ('SupervisorProxyException',)
+    effect = 'transfer_process_info'
+
+    def modifies(self):
+        return [field(self, f) for f in TRANSFER_FRAME]
+
+    def pre_client(self):
+        return proxy_pre(self) and origin_known(self)
+
+    def post_client(self):
+        return proxy_pre(self)
+
+
+def auth_note(k):
+    return effect_at('push_notification', k)[0]
+
+
+@contract('internal_com.supervisorproxy:SupervisorProxy.check_instance', props=['C13', 'C12'])
+class CheckInstance:
+    """statement C13: 'stale or duplicated handshake notifications' change nothing - Context.on_authorization only takes
+    a result whose timestamp is later than the entry in CHECKING, so the AUTHORIZATION notification must carry THE
+    TIMESTAMP TAKEN WHEN THE HANDSHAKE STARTED (read before anything else, the one handed to the IDENTIFICATION
+    transfer), not a later clock value; it carries the decision of _is_authorized ('a peer that reports the local
+    instance as ISOLATED, or whose ... strategies differ ... is marked ISOLATED instead of being admitted'), and the
+    state & modes and the process snapshot (C12 'snapshot at handshake') are only forwarded for an AUTHORIZED peer.
+    The callees _transfer_* / _is_authorized are taken by their contracts: their own notifications are not in this log.
+    The proxy runs in its own thread: the body is verified as SEQUENTIAL code."""
+    raises = ('SupervisorProxyException',)
+
+    def modifies(self):
+        return [field(self, f) for f in TRANSFER_FRAME]
+
+    def pre_client(self):
+        return proxy_pre(self) and origin_known(self)
+
+    def post_effect_timestamp_first(self):
+        """the first thing the handshake does is to hand its timestamp over (no XML-RPC, no notification before)"""
+        return effects()[0][0] == 'transfer_network_info'
+
+    def post_effect_authorization_carries_the_handshake_timestamp(self):
+        return (auth_note(0)[1][0] == NotificationHeaders.AUTHORIZATION.value
+                and 'now_monotonic' in auth_note(0)[1][1] and 'authorization' in auth_note(0)[1][1]
+                and auth_note(0)[1][1]['now_monotonic'] == effect_at('transfer_network_info', 0)[0]
+                if count_effects('push_notification') == 1 and count_effects('transfer_network_info') == 1 else False)
+
+    def post_effect_origin_is_the_peer(self):
+        ident = self.supvisors.mapper._instances[self.status.supvisors_id.identifier]
+        return (auth_note(0)[0][0] == ident.identifier
+                if count_effects('push_notification') == 1 else False)
+
+    def post_effect_admitted_only_when(self):
+        return (implies(auth_note(0)[1][1]['authorization'] == AUTHORIZED.value,
+                        not seen_isolated_or_unknown(local_seen_by_remote(self))
+                        and same_strategies(remote_strategies(self), self.supvisors.options))
+                if count_effects('push_notification') == 1 else False)
+
+    def post_effect_snapshot_only_when_authorized(self):
+        n = 1 if auth_note(0)[1][1]['authorization'] == AUTHORIZED.value else 0
+        return (count_effects('transfer_states_modes') == n and count_effects('transfer_process_info') == n
+                if count_effects('push_notification') == 1 else False)
